@@ -110,14 +110,37 @@ def _alarm(signum, frame):
 
 @contextlib.contextmanager
 def watchdog(seconds: float):
-    """Backstop against pure-CPU loops.  A hit must be reported as a cap."""
+    """Backstop against pure-CPU loops.  A hit must be reported as a cap (or, where the guarded step is a finite computation
+    that takes microseconds - lexing, parsing, lowering a short text - as non-termination after a generous retry).
+    Nests: an enclosing watchdog's remaining time is restored on exit."""
+    import time
+
     old = signal.signal(signal.SIGALRM, _alarm)
-    signal.setitimer(signal.ITIMER_REAL, seconds, 0.5)
+    t0 = time.monotonic()
+    prev_delay, prev_interval = signal.setitimer(signal.ITIMER_REAL, seconds, 0.5)
     try:
         yield
     finally:
-        signal.setitimer(signal.ITIMER_REAL, 0)
+        if prev_delay > 0:
+            signal.setitimer(signal.ITIMER_REAL, max(prev_delay - (time.monotonic() - t0), 0.001), prev_interval)
+        else:
+            signal.setitimer(signal.ITIMER_REAL, 0)
         signal.signal(signal.SIGALRM, old)
+
+
+class NonTermination(Exception):
+    """a finite step (lexing / parsing / lowering a short text) produced no result within a limit that is orders of magnitude
+    above its normal cost, twice"""
+
+
+def guarded(fn, *a, limits=(10.0, 60.0), **k):
+    for lim in limits:
+        try:
+            with watchdog(lim):
+                return fn(*a, **k)
+        except CaseTimeout:
+            continue
+    raise NonTermination("no result within %g s" % limits[-1])
 
 
 # ----------------------------------------------------------------- execution
@@ -162,7 +185,21 @@ def transpile(program: str, dict_compress=True, var_digraphs=False) -> str:
     setup()
     import vyxal.transpile
 
-    return vyxal.transpile.transpile(program, dict_compress, var_digraphs)
+    return guarded(vyxal.transpile.transpile, program, dict_compress, var_digraphs)
+
+
+def tokenise(text, *a):
+    setup()
+    import vyxal.lexer
+
+    return guarded(vyxal.lexer.tokenise, text, *a)
+
+
+def parse(tokens):
+    setup()
+    import vyxal.parse
+
+    return guarded(vyxal.parse.parse, tokens)
 
 
 def exec_code(code, stack=None, ctx=None, inputs=(), ns=None, timeout=5.0) -> Run:
